@@ -67,6 +67,9 @@ def shapes(quick):
         reg('bad-ref%d' % k, lambda h, l, k=k: h.ref(l.text(k), l.text(1) if k == 1 else None), wf=False)
         reg('bad-sym%d' % k, lambda h, l, k=k: h.sym(l.text(k)), wf=False)
         reg('bad-xstr%d' % k, lambda h, l, k=k: h.xstr(l.text(k), l.text(1) if k < 2 else list(b'v')), wf=False)
+    # XStr type names whose first character upper-cases to several characters (ill-formed type names, C10)
+    for i_, tn in enumerate(['\u0390x', '\u1f80', '\u00dfy', '\ufb01']):
+        reg('bad-xstr-case%d' % i_, lambda h, l, tn=tn: h.xstr(list(tn.encode('utf-8')), list(b'v')), wf=False)
     reg('bool', lambda h, l: h.bool_(l.boolean()))
     for nm, fn in (('null', 'null'), ('marker', 'marker'), ('remove', 'remove'), ('na', 'na')):
         reg(nm, lambda h, l, fn=fn: getattr(h, fn)())
